@@ -358,12 +358,17 @@ def all_engine_a(tier, pids=("c01", "c02", "c03", "c04", "c05")):
     return out
 
 
+def _light(ts):
+    """drop the calendar-heavy shards (week / no-period interval shapes): their SQL is the same as the other shards'"""
+    return [t for t in ts if (t.get("opts") or {}).get("iv_class") not in ("W", "X1", "X2", "X3")]
+
+
 def c10(tier):
-    return all_engine_a(tier, ("c01", "c02", "c03", "c04", "c05", "c06", "c07", "c28"))
+    return _light(all_engine_a(tier, ("c01", "c02", "c03", "c04", "c05", "c06", "c07", "c28", "c09")))
 
 
 def c33(tier):
-    return all_engine_a(tier, ("c01", "c02", "c03", "c04", "c05", "c06", "c07", "c28"))
+    return _light(all_engine_a(tier, ("c01", "c02", "c03", "c04", "c05", "c06", "c07", "c28", "c09")))
 
 
 # ------------------------------------------------------------------------------------------ C28 viral attributes
